@@ -301,6 +301,13 @@ func (d *duplexHTTPCall) makeRequest() {
 	d.response = response
 	go d.abortOnContextDone()
 	if err := d.validateResponse(response); err != nil {
+		if ctxErr := d.ctx.Err(); ctxErr != nil {
+			// Validation may have read (part of) the body. If the context is
+			// done, that's the reason to report, whatever the truncated response
+			// looked like.
+			d.SetError(ctxErr)
+			return
+		}
 		d.SetError(err)
 		return
 	}
